@@ -67,6 +67,10 @@ EXPLANATION = (
     "produced by the on-disk transposition of the pair-major table of the "
     "same direction. The numbers themselves are not decided.")
 
+EXPLANATION += (
+    ' Round 6: the gene list is applied whenever one is given, an empty list included (R-PROV/gene-list/whenever-given).'
+)
+
 RULE_TEXT = (
     "one obligation per arithmetic relation (quotient, multiplier, "
     "comparison operator, conjunction operand) and per guard; polynomial "
@@ -1141,6 +1145,42 @@ def check_gene_list(ctx):
     mt = next(iter(masked.values()), None)
     okm = mt is not None and (_cname(mt) == 'logical_not' or (
         mt[0] == 'unop' and mt[1] == 'Invert'))
+    # ... whenever a list is given: the only way round the overwrite is
+    # `valid_gene_idx is None` (an empty list means "no gene", not "any")
+    stores = {n.id for n in cfg.nodes if n.id in rd.live and isinstance(
+        n.ast, ast.Assign) and isinstance(n.ast.targets[0], ast.Subscript)
+        and isinstance(n.ast.targets[0].value, ast.Name)
+        and n.ast.targets[0].value.id in set(need.values())}
+    sites = [n.id for n in cfg.nodes if n.id in rd.live and any(
+        resolve_callee(ctx.db, fi, c) is pt for c in cfg.calls_in(n))]
+
+    def edge_given(a, b, lab):
+        if lab == 'exc':
+            return False
+        na = cfg.nodes[a]
+        if na.kind == 'if' and lab in ('true', 'false'):
+            t = ex.expand(na.ast.test, na.id)
+            none_test = None
+            if t == ('cmp', ('IsNot',), ('param', 'valid_gene_idx'),
+                     (('const', 'None'),)):
+                none_test = True       # true edge = a list is given
+            elif t == ('cmp', ('Is',), ('param', 'valid_gene_idx'),
+                       (('const', 'None'),)):
+                none_test = False
+            if none_test is not None and (lab == 'true') != none_test:
+                return False
+        return True
+    byp = cfg.path(cfg.entry, set(sites), avoid=lambda x: x.id in stores,
+                   edge_ok=edge_given) if stores and sites else None
+    ctx.ob(rule, 'penetrance_from_stats:whenever-given', fi.loc(),
+           bool(stores) and bool(sites) and byp is None,
+           'the overwrite happens whenever a gene list is given'
+           if byp is None and stores else
+           'with a gene list given (valid_gene_idx is not None) the '
+           'penetrance test can be reached without the genes outside the '
+           'list having been overwritten -- e.g. for an empty list, which '
+           'means that no gene is allowed, not that all are',
+           witness=cfg.fmt_path(byp) if byp else None)
     ctx.ob(rule, 'penetrance_from_stats:masked', fi.loc(), ok and okm,
            'genes outside the list fail every penetrance test (all three '
            'inputs are overwritten by one complement mask)' if ok and okm
@@ -1226,11 +1266,33 @@ def check_gene_list(ctx):
                             tset = ex.expand(tests[0].comparators[0], n.id)
                             if T.contains(tset, ('param', 'gene_list')):
                                 ok = True
+        # or the reference side of match_genes(names of the statistics
+        # file, gene_list)
+        for n in cfg.nodes:
+            st = n.ast
+            if ok or not (n.id in rd.live and isinstance(st, ast.Assign)
+                          and isinstance(st.targets[0], ast.Name)):
+                continue
+            t = ex.expand(st.value, n.id)
+            if t[0] == 'sub' and _cname(t[1]) == 'match_genes':
+                ref = T.call_arg(t[1], pos=0, kw='reference_gene_names')
+                if ref is None:
+                    ref = T.call_arg(t[1], kw='reference_gene_names')
+                qry = T.call_arg(t[1], kw='query_gene_names')
+                if qry is None:
+                    qry = T.call_arg(t[1], pos=1)
+                if t[2] == ('const', "'reference'") and qry is not None \
+                        and T.contains(qry, ('param', 'gene_list')) \
+                        and ref is not None and not T.contains(
+                            ref, ('param', 'gene_list')):
+                    ok = True
         ctx.ob(rule, f'{fi.name}:index-list', fi.loc(), ok,
                'valid_gene_idx holds the positions of the genes that are '
                'in the list' if ok else
-               'valid_gene_idx is not [i for i, g in enumerate(names) if '
-               'g in gene_list]')
+               'valid_gene_idx is not the list of positions *in the '
+               'reference gene table* of the genes that are in gene_list '
+               '([i for i, g in enumerate(names) if g in gene_list], or '
+               'the reference side of match_genes)')
 
 
 # ----------------------------------------------------------------------
